@@ -2,7 +2,7 @@
    Statements only; every proof is [exact lemma].  Model: Store/Model.v (mechanism, with the repairs fixes/F1, fixes/F2),
    specification: Store/Spec.v ([flat], [range_query]); interleavings: Store/Conc.v. *)
 From NG Require Import Common.Tactics Store.Bytes Store.Model Store.Spec Store.MapLemmas Store.MergeProof
-  Store.Refine Store.Conc Store.Legacy.
+  Store.Refine Store.Conc Store.ConcFine Store.Legacy.
 Open Scope N_scope.
 
 (* ---- point reads ---- *)
@@ -126,6 +126,33 @@ Definition C09_reader_atomic_statement : Prop := reader_atomic_statement.
 Theorem C09_reader_atomic_refuted : ~ C09_reader_atomic_statement.
 Proof. exact reader_atomic_refuted. Qed.
 Print Assumptions C09_reader_atomic_refuted.
+
+(* ---- the reader at a finer grain: its code before s.rlock() is a step of its own (Store/ConcFine.v) ---- *)
+(* the code as written reads nothing of the store before the lock (maps chosen and s.ps captured inside the region):
+   for EVERY fine schedule the system is the coarse one ... *)
+Theorem C09_fine_inside_is_coarse : forall tr st, fc (frun false st tr) = crun (fc st) (erase tr).
+Proof. exact fine_inside_is_coarse. Qed.
+Print Assumptions C09_fine_inside_is_coarse.
+
+(* ... so the (partial) reader atomicity holds wherever the pre-lock steps are scheduled *)
+Theorem C09_fine_reader_atomic_partial : forall c0 pre r mid,
+  cwf c0 -> rsnap c0 = None -> rans c0 = None ->
+  Forall batch_ok (erase pre) -> Forall batch_ok (erase mid) ->
+  Forall (fun a => match a with ASnap _ | ARead => False | _ => True end) (erase pre) ->
+  Forall no_swap_or_reader (erase mid) ->
+  range_ok r ->
+  rans (fc (frun false {| fc := c0; fpre := None |} (pre ++ FLocked r :: mid ++ [FRead]))) =
+  Some (rq r (cflat (crun c0 (erase pre)))).
+Proof. exact fine_reader_atomic_partial. Qed.
+Print Assumptions C09_fine_reader_atomic_partial.
+
+(* the variant that captures s.ps BEFORE taking the read lock does not have that property: a committed key is missing
+   from a scan that loses the lock to Persist's first region while the flush is in flight (no swap between the locked
+   region and the lower read).  This documents the class of change harness/c09lock.go is there to catch. *)
+Definition C09_capture_before_statement : Prop := capture_before_statement.
+Theorem C09_capture_before_lock_refuted : ~ C09_capture_before_statement.
+Proof. exact capture_before_refuted. Qed.
+Print Assumptions C09_capture_before_lock_refuted.
 
 (* ---- the two repaired defects, as counter-examples of the unrepaired mechanisms ---- *)
 Theorem C09_F1_legacy_refuted :
